@@ -83,7 +83,7 @@ type gspec struct {
 	N          int
 	Edges      []gedge
 	Place      []int // node -> document id
-	Shape      []int // node -> 0 definitions/<name>, 1 nested pointer, 2 list element pointer, 3 whole document
+	Shape      []int // node -> 0 definitions/<name>, 1 nested pointer (map member), 2 list element pointer, 3 whole document, 4 element of an array document, 5 / 6 schema held by pointer (not / additionalProperties)
 	Names      int   // 0 plain, 1 names needing escapes, 2 case variants
 	FragEsc    int   // 0 minimal percent-escaping in fragments, 1 full escaping
 	Entry      int   // see entryNames
@@ -226,6 +226,10 @@ func (g *gspec) nodePtr(i int) []string {
 		return nil
 	case 4:
 		return []string{"1"}
+	case 5:
+		return []string{"definitions", "H" + strconv.Itoa(i), "not"}
+	case 6:
+		return []string{"definitions", "H" + strconv.Itoa(i), "additionalProperties"}
 	}
 	return []string{"definitions", n}
 }
@@ -480,6 +484,10 @@ func (g *gspec) build() *built {
 			defs["H"+strconv.Itoa(i)] = obj("title", "holder", "properties", obj(g.nodeName(i), nodes[i]))
 		case 2:
 			defs["H"+strconv.Itoa(i)] = obj("title", "holder", "allOf", arr(obj("title", "pad"), nodes[i]))
+		case 5: // held by pointer in a typed document
+			defs["H"+strconv.Itoa(i)] = obj("title", "holder", "not", nodes[i])
+		case 6:
+			defs["H"+strconv.Itoa(i)] = obj("title", "holder", "additionalProperties", nodes[i])
 		}
 	}
 	// entry elements
